@@ -136,7 +136,7 @@ theorem cWriteHeaders_exp (rq : Req) (c0 : CSt) (code : Nat) (h : HMap) (chunk :
     split <;> (rename_i heq; rw [heq])
 
 theorem cWriteHeaders_fresh (rq : Req) (c0 : CSt) (code : Nat) (h : HMap) (chunk : Bytes)
-    (hf : Fresh rq c0) (hok : HOK h) (h1 : 100 ≤ code) (h2 : code ≤ 999)
+    (hf : Fresh rq c0) (hok : HOK h) (hclok : CLOK h) (h1 : 100 ≤ code) (h2 : code ≤ 999)
     (hhead : (rq.method == Method.head) = true → chunk = []) :
     ((cWriteHeaders rq c0 code h chunk).2 = true → Aborted0 (cWriteHeaders rq c0 code h chunk).1) ∧
     ((cWriteHeaders rq c0 code h chunk).2 = false → Written rq (cWriteHeaders rq c0 code h chunk).1 false) := by
@@ -185,7 +185,7 @@ theorem cWriteHeaders_fresh (rq : Req) (c0 : CSt) (code : Nat) (h : HMap) (chunk
     cases hg : dget nCL h with
     | some vs =>
       -- Content-Length
-      obtain ⟨v, rfl, hvne, hvd⟩ := hok.2.2 vs hg
+      obtain ⟨v, rfl, hvne, hvd⟩ := hclok vs hg
       obtain ⟨n, hn⟩ := parseDec_digits v hvne hvd
       have hhas1 : hhas h nCL = true := by rw [hhas_nCL, hg]; rfl
       have hchk : decideChunking rq code h = false := by simp [decideChunking, hhas1]
